@@ -120,6 +120,7 @@ struct Global {
   uint64_t checks = 0;
   int samples_emitted = 0;
   std::string cur_desc;   // description of the case in flight (for crash attribution)
+  std::string auto_sample;
   bool thorough() const { return tier == "thorough"; }
 };
 inline Global& G() { static Global* g = new Global; return *g; }   // never destroyed: the death callback may run after static destructors
@@ -251,8 +252,10 @@ int main(int argc, char** argv) {
     arm_timer(0);
     g.in_case = false;
     g.cases_done++;
+    if (g.samples_emitted == 0 && g.auto_sample.empty() && !g.cur_desc.empty()) g.auto_sample = g.cur_desc;
   }
   g.viol_keys_this_case.clear();
+  if (g.samples_emitted == 0 && !g.auto_sample.empty()) sample("{\"case_description\":" + jstr(g.auto_sample) + "}");   // monitor wrote no sample itself
   g.cur_desc = "final_report";
   try { final_report(); } catch (const std::exception& e) { fail("harness|final-report-exception", e.what()); }
   // signatures
